@@ -170,7 +170,12 @@ func TestFold(t *testing.T) {
 			if i == 0 && rapid.IntRange(0, 2).Draw(t, "seedfull") != 0 {
 				shape = listgen.Full // most histories start from a populated list
 			}
-			u := listgen.Update(t, &f, state, shape, gen.Opt{}, fmt.Sprintf("u%d", i))
+			u := listgen.Update(t, &f, state, shape, gen.Opt{LooseSelectors: true}, fmt.Sprintf("u%d", i))
+			if u.DeleteSelector.IsValid() {
+				if m := listgen.Matches(u.DeleteSelector, state); m > 1 {
+					world.Label("delete-selector/several-matches")
+				}
+			}
 			before := refmodel.Multiset(state)
 			next := refmodel.Fold(&f, state, u)
 			ok := tg.apply(u)
@@ -224,7 +229,7 @@ func TestSweep(t *testing.T) {
 					init := refmodel.Update{Items: listgen.Items(t, &f, 2, gen.Opt{Dense: true}, "init")}
 					tg.apply(init)
 					state := refmodel.Fold(&f, nil, init)
-					u := listgen.Update(t, &f, state, shape, gen.Opt{Dense: true}, "u")
+					u := listgen.Update(t, &f, state, shape, gen.Opt{Dense: true, LooseSelectors: true}, "u")
 					next := refmodel.Fold(&f, state, u)
 					if !tg.apply(u) {
 						world.Fail(t, fmt.Sprintf("C02/update-rejected/%s/%s", sigShape(u.Shape()), f.Fn), "%s: well-formed %s update reported as failed: %s", tg.name, u.Shape(), world.JSON(listgen.Describe(&f, u)))
